@@ -268,11 +268,26 @@ Definition ctl_move (r : rrun) : option (option mact * rrun) :=
     the end of a closed input: taking the answer first keeps the link alive and rewires it, taking the
     [nil] first closes it. [ctl_move] prefers the input arm; this is the alternative, a move of the
     system whenever it is defined, and [r_conf] counts the instants at which it was. *)
-Definition ctl_alt (r : rrun) : option rrun :=
+Definition bump1 (x : option (option mact * rrun)) : option (option mact * rrun) :=
+  match x with
+  | Some (a, r') => Some (a, mkRun (r_l r') (r_gone r') (r_ph r') (r_ops r') (r_conf r' + 1))
+  | None => None
+  end.
+
+(** (the helper goroutine runs beside the loop: while the loop still has input it may already deliver its
+    interrupt, see the stage exit, and offer its answer - these are the alternative moves too) *)
+Definition ctl_alt (r : rrun) : option (option mact * rrun) :=
   match r_ph r with
-  | PFlush p q effp (StDone true) false None =>
+  | PFlush p q effp st false None =>
     match nth_error (l_stubs (r_l r)) p with
-    | Some s => if s_in_closed s then Some (mkRun (r_l r) (r_gone r) (PDrain p q effp None) (r_ops r) (r_conf r + 1)) else None
+    | Some s =>
+      if s_in_closed s then
+        match st with
+        | StDone true => bump1 (just_ph r (PDrain p q effp None))
+        | StDone false => None
+        | _ => bump1 (stop_move r q st (fun st' => PFlush p q effp st' false None))
+        end
+      else None
     | None => None
     end
   | _ => None
@@ -372,7 +387,7 @@ Fixpoint rsearch (fuel : nat) (horizon : Z) (obs : list (Z * Z)) (oclosed : Z) (
   | O => None
   | S f =>
     let go := rsearch_go (rsearch f horizon obs oclosed) obs oclosed r in
-    match (match ctl_alt r with Some ra => go ra | None => None end) with
+    match (match ctl_alt r with Some (_, ra) => go ra | None => None end) with
     | Some x => Some x
     | None =>
     match step_now (r_l r), ctl_move r with
